@@ -51,5 +51,7 @@ PROPS["C09"] = dict(
            dict(name="table_race", harness="t_table", files=["common_", "c09_"], run="TestVerifC09Race", race=True,
                 shards=dict(quick=8, thorough=16), timeout_s=dict(quick=900, thorough=5400)),
            dict(name="server", harness="t_server", files=["c09_"], run="TestVerifC09",
+                shards=dict(quick=16, thorough=16), timeout_s=dict(quick=900, thorough=5400)),
+           dict(name="e2e", harness="t_server", files=["sim_", "e2e_"], run="TestVerifE2E_C09",
                 shards=dict(quick=16, thorough=16), timeout_s=dict(quick=900, thorough=5400))],
 )
